@@ -285,49 +285,86 @@ pub fn check_svg(svg: &str, group: usize, p: &Params) -> Result<(), String> {
     let uses = parse_uses(svg)?;
     let g = geom::group(group);
     let lat = Lattice::from_params(p.length, p.ratio, p.angle);
+    let frac = geom::site_copies_fractional(&g, p.x, p.y, p.phi);
     let copies = geom::site_copies_cartesian(&g, &lat, p.x, p.y, p.phi);
     let a = lat.va();
     let b = lat.vb();
     let scale = lat.a + lat.b;
-    let mut want_mol: Vec<[f64; 6]> = vec![];
-    for c in copies.iter() {
-        for n in -1..=1 {
-            for m in -1..=1 {
-                let t = c.t.add(a.scale(n as f64)).add(b.scale(m as f64));
-                want_mol.push([c.l.a, c.l.c, c.l.b, c.l.d, t.x, t.y]);
-            }
-        }
-    }
-    let mut want_cell: Vec<[f64; 6]> = vec![];
-    for n in -1..=1 {
-        for m in -1..=1 {
-            let t = a.scale(n as f64).add(b.scale(m as f64));
-            want_cell.push([1., 0., 0., 1., t.x, t.y]);
-        }
-    }
-    let close = |x: &[f64; 6], y: &[f64; 6]| (0..4).all(|i| (x[i] - y[i]).abs() <= 1e-12) && (4..6).all(|i| (x[i] - y[i]).abs() <= 1e-12 * (scale + x[i].abs()));
-    for (href, want) in [("#mol", &want_mol), ("#cell", &want_cell)].iter() {
-        let got: Vec<[f64; 6]> = uses.iter().filter(|(h, _)| h == href).map(|(_, m)| *m).collect();
-        if got.len() != want.len() {
-            return Err(format!("the SVG places {} {} times, the structure and its 8 nearest lattice images need {}", href, got.len(), want.len()));
-        }
-        let mut used = vec![false; got.len()];
-        for w in want.iter() {
-            let mut found = false;
-            for (i, gm) in got.iter().enumerate() {
-                if !used[i] && close(gm, w) {
-                    used[i] = true;
-                    found = true;
-                    break;
-                }
-            }
-            if !found {
-                return Err(format!("no <use href={}> with transform matrix({} {} {} {} {} {}) (a b c d e f = column-major linear part, translation) in the SVG", href, w[0], w[1], w[2], w[3], w[4], w[5]));
-            }
-        }
-    }
+    let minv = lat.m().inv();
     if uses.iter().any(|(h, _)| h != "#mol" && h != "#cell") {
         return Err("the SVG uses an element other than #mol and #cell".to_string());
+    }
+    // cell outlines: the 9 lattice translates of the identity, each once
+    {
+        let got: Vec<[f64; 6]> = uses.iter().filter(|(h, _)| h == "#cell").map(|(_, m)| *m).collect();
+        if got.len() != 9 {
+            return Err(format!("the SVG draws the cell {} times, the cell and its 8 neighbours need 9", got.len()));
+        }
+        let mut seen = [[false; 3]; 3];
+        for m in got.iter() {
+            if !((m[0] - 1.).abs() <= 1e-12 && m[1].abs() <= 1e-12 && m[2].abs() <= 1e-12 && (m[3] - 1.).abs() <= 1e-12) {
+                return Err(format!("a cell outline is drawn with the linear part ({} {} {} {})", m[0], m[1], m[2], m[3]));
+            }
+            let f = minv.apply(crate::geom::P::new(m[4], m[5]));
+            let (n, mm) = (f.x.round(), f.y.round());
+            let t = a.scale(n).add(b.scale(mm));
+            if !((t.x - m[4]).abs() <= 1e-12 * (scale + m[4].abs()) && (t.y - m[5]).abs() <= 1e-12 * (scale + m[5].abs())) || n.abs() > 1. || mm.abs() > 1. {
+                return Err(format!("a cell outline is drawn at ({}, {}), not a lattice translate within one cell", m[4], m[5]));
+            }
+            let (i, j) = ((n + 1.) as usize, (mm + 1.) as usize);
+            if seen[i][j] {
+                return Err(format!("the cell outline at lattice index ({}, {}) is drawn twice", n, mm));
+            }
+            seen[i][j] = true;
+        }
+    }
+    // molecules: every placement is copy k translated by n A + m B; per copy the indices must form one 3x3 block.
+    // The block is centred on the copy's own cell; when a fractional coordinate of the copy is within 1e-9 of a
+    // cell face the neighbouring cell is an equally valid home (the wrap decides by the last bit).
+    let got: Vec<[f64; 6]> = uses.iter().filter(|(h, _)| h == "#mol").map(|(_, m)| *m).collect();
+    if got.len() != 9 * copies.len() {
+        return Err(format!("the SVG places the shape {} times, {} copies and their 8 nearest lattice images need {}", got.len(), copies.len(), 9 * copies.len()));
+    }
+    let mut blocks: Vec<std::collections::BTreeSet<(i64, i64)>> = vec![Default::default(); copies.len()];
+    for m in got.iter() {
+        let mut placed = false;
+        for (k, c) in copies.iter().enumerate() {
+            if !((m[0] - c.l.a).abs() <= 1e-12 && (m[1] - c.l.c).abs() <= 1e-12 && (m[2] - c.l.b).abs() <= 1e-12 && (m[3] - c.l.d).abs() <= 1e-12) {
+                continue;
+            }
+            let d = crate::geom::P::new(m[4] - c.t.x, m[5] - c.t.y);
+            let f = minv.apply(d);
+            let (n, mm) = (f.x.round(), f.y.round());
+            let t = a.scale(n).add(b.scale(mm));
+            let tol = 1e-12 * (scale * (1. + n.abs() + mm.abs()) + m[4].abs() + m[5].abs());
+            if (t.x - d.x).abs() <= tol && (t.y - d.y).abs() <= tol && n.abs() <= 2. && mm.abs() <= 2. && !blocks[k].contains(&(n as i64, mm as i64)) {
+                blocks[k].insert((n as i64, mm as i64));
+                placed = true;
+                break;
+            }
+        }
+        if !placed {
+            return Err(format!("<use href=#mol transform=matrix({} {} {} {} {} {})> is not one of the state's Cartesian placements translated by a lattice vector of its neighbourhood (or is drawn twice)", m[0], m[1], m[2], m[3], m[4], m[5]));
+        }
+    }
+    for (k, bl) in blocks.iter().enumerate() {
+        if bl.len() != 9 {
+            return Err(format!("copy {} is drawn {} times instead of 9", k, bl.len()));
+        }
+        let n0 = bl.iter().map(|x| x.0).min().unwrap() + 1;
+        let m0 = bl.iter().map(|x| x.1).min().unwrap() + 1;
+        for dn in -1..=1 {
+            for dm in -1..=1 {
+                if !bl.contains(&(n0 + dn, m0 + dm)) {
+                    return Err(format!("the lattice images drawn for copy {} do not form the 3x3 neighbourhood of one cell: {:?}", k, bl));
+                }
+            }
+        }
+        let near_x = geom::circ_dist(frac[k].t.x, 0.5) <= 1e-9;
+        let near_y = geom::circ_dist(frac[k].t.y, 0.5) <= 1e-9;
+        if (n0 != 0 && !(near_x && n0.abs() == 1)) || (m0 != 0 && !(near_y && m0.abs() == 1)) {
+            return Err(format!("copy {} and its images are drawn around the cell ({}, {}) instead of the copy's own cell", k, n0, m0));
+        }
     }
     Ok(())
 }
@@ -446,5 +483,5 @@ fn file_oracle(c: &FileCase, rec: &Rec, ctx: &Ctx) -> Result<(), String> {
 }
 
 pub fn parts() -> Vec<PartDef> {
-    vec![part("roundtrip", 150_000, 5_000_000, rt_strat, rt_oracle), part("svg", 40_000, 1_200_000, svg_strat, svg_oracle), part("cli", 160, 3_000, file_strat, file_oracle)]
+    vec![part("roundtrip", 1_000_000, 20_000_000, rt_strat, rt_oracle), part("svg", 400_000, 8_000_000, svg_strat, svg_oracle), part("cli", 320, 6_000, file_strat, file_oracle)]
 }
